@@ -609,7 +609,7 @@ int read_msf(struct in_buffer* b,struct msa** m)
                                         seq_ptr->name[i] = 0;
                                         break;
                                 }
-                                if(isspace((int)p[i])){
+                                if(isspace((int)p[i]) || p[i] == 0){
                                         seq_ptr->name[i] = 0;
                                         break;
                                 }
@@ -630,6 +630,9 @@ int read_msf(struct in_buffer* b,struct msa** m)
                         active_seq = 0;
                 }else{
                         if(!isspace(line[0])){
+                                if(active_seq >= msa->numseq){
+                                        ERROR_MSG("MSF block has more rows than the header has names (line %d).", nl+1);
+                                }
                                 seq_ptr = msa->sequences[active_seq];
                                 //p = strstr(line,seq_ptr->name);
                                 //if(p){
